@@ -1,3 +1,3 @@
 From Coq Require Import ExtrOcamlBasic.
-From PTK Require Import Lib.Sx Model.C14_HistoryNav.
-Extraction "c14_model.ml" run_C14.
+From PTK Require Import Lib.Sx Model.C14_HistoryNav Model.C14_Layer.
+Extraction "c14_model.ml" run_C14L.
